@@ -2575,7 +2575,8 @@ handleMessage(MasterConnection self, uint8_t* buffer, int msgSize)
 {
     uint64_t currentTime = Hal_getMonotonicTimeInMs();
 
-    if (msgSize >= 3)
+    /* every APDU has a start octet, a length octet and four control octets */
+    if (msgSize >= IEC60870_5_104_APCI_LENGTH)
     {
         if (buffer[0] != 0x68) {
             DEBUG_PRINT("CS104 SLAVE: Invalid START character!");
